@@ -135,6 +135,7 @@ structure Cfg where
   keepValueOnError : Bool := true   -- D20: a resolver returning value and error keeps the value in data
   argCountCheckOnly : Bool := true  -- D23: unknown arguments are reported only when the counts differ, and only on object containers
   opFallbackAnyName : Bool := true  -- D11: a name that matches no operation falls back to the document's only operation
+  dupKeyOverwrites : Bool := true   -- D12: a response key selected again replaces the earlier value instead of being merged with it
   maxDepth : Nat := 100
 
 structure Env where
@@ -155,6 +156,32 @@ def prefixErrs (s : Seg) (es : List Err) : List Err := es.map (fun e => { e with
 
 def setKey (kvs : List (String × J)) (k : String) (v : J) : List (String × J) :=
   if kvs.any (fun p => p.1 == k) then kvs.map (fun p => if p.1 == k then (k, v) else p) else kvs ++ [(k, v)]
+
+/-- `mergeValue`: objects key by key, lists of equal length element by element, anything else replaced by the later
+value (fuel: the nesting of the earlier value) -/
+def mergeJ : Nat → J → J → J
+  | 0, _, add => add
+  | fuel + 1, .obj a, .obj b =>
+    .obj (b.foldl (fun acc kv =>
+      match acc.find? (fun p => p.1 == kv.1) with
+      | some prev => acc.map (fun p => if p.1 == kv.1 then (kv.1, mergeJ fuel prev.2 kv.2) else p)
+      | none => acc ++ [kv]) a)
+  | fuel + 1, .list a, .list b =>
+    if a.length == b.length then .list ((a.zip b).map (fun p => mergeJ fuel p.1 p.2)) else .list b
+  | _, _, add => add
+
+/-- `result[key] = nil` of `resolveField` (no resolver value): as coded at first, whatever was there is replaced;
+repaired, an earlier value of the key stays -/
+def putNil (cfg : Cfg) (kvs : List (String × J)) (k : String) : List (String × J) :=
+  if cfg.dupKeyOverwrites then setKey kvs k .null
+  else if kvs.any (fun p => p.1 == k) then kvs else kvs ++ [(k, .null)]
+
+/-- `result[key] = fv` of `resolveField`: replaced, or (repaired) merged with the earlier value of the key -/
+def putVal (cfg : Cfg) (kvs : List (String × J)) (k : String) (v : J) : List (String × J) :=
+  if cfg.dupKeyOverwrites then setKey kvs k v
+  else match kvs.find? (fun p => p.1 == k) with
+    | some prev => setKey kvs k (mergeJ 1000 prev.2 v)
+    | none => kvs ++ [(k, v)]
 
 /-- `getFieldDef`: objects and interfaces have fields -/
 def getFieldDef (s : Schema) (ty : String) (f : String) : Option FieldDef :=
@@ -249,14 +276,14 @@ def rSel (env : Env) (node : Nat) (ty : String) (d : Nat) (res : List (String ×
       if !sortErrs.isEmpty then (res, { errs := skipErrs ++ prefixErrs (.key key) sortErrs }) else
       if !formErrs.isEmpty then
         -- no call; attr is nil, so the key is set to null
-        (setKey res key .null, { errs := skipErrs ++ prefixErrs (.key key) formErrs })
+        (putNil env.cfg res key, { errs := skipErrs ++ prefixErrs (.key key) formErrs })
       else
         let fr : FieldRes := fetch env.graph node name
         let call : Call := ⟨node, name, ty, args⟩
         let resolverErrs : List Err := List.replicate fr.errs ⟨[], .resolver⟩
         let (fv, acc) := complete env.schema env.graph (fun n t d' => if sels.isEmpty then (.obj [], { errs := [⟨[], .noSelection⟩] }) else let r := rSels env n t d' [] sels; (.obj r.1, r.2)) fd.type fr.val d
         let fv := if fr.errs > 0 && !env.cfg.keepValueOnError then J.null else fv
-        (setKey res key fv,
+        ((match fr.val with | .nil => putNil env.cfg res key | _ => putVal env.cfg res key fv),
          { errs := skipErrs ++ prefixErrs (.key key) (resolverErrs ++ acc.errs), calls := call :: acc.calls })
   | .inline cond dirs sels spread =>
     let sk := Skip.skipSel env.cfg.skipTable dirs env.vars
